@@ -81,27 +81,44 @@ theorem linkto_size_enforced (l : Linker) (n : Nat) (hn : l.opts.size = some n) 
     | trivial
 
 /-! ### total correctness of the link commit (healthy run), incl. the replacement of an earlier link
-(F18).  Proofs in `Lemmas/LinkRefine.lean`; `hd` / `ht`: the directory chains of the address and of
+(F18) unless it already leads to the target's file.  Proofs in `Lemmas/LinkRefine.lean`; `hd` / `ht`: the directory chains of the address and of
 `<cache>/tmp` are absent or directories, so that `create_dir_all` succeeds. -/
 
 open LinkRefine Refine CacheRefine in
-/-- **An earlier link at the address is replaced** — whatever it pointed at (stale, dangling or
-good): the commit answers the digest of the target just read, the address is a link to that
-target afterwards, the temp link it went through is gone, and nothing else changes (apart from
-directories created on the way). -/
+/-- **An earlier link at the address is replaced** when it does not already lead to the target's
+file (`hns : NotSameFile …` — stale, dangling or pointing elsewhere; checkable forms:
+`LinkRefine.notSameFile_of_dangling`, `LinkRefine.notSameFile_of_ne`): the commit answers the digest
+of the target just read, the address is a link to that target afterwards, the temp link it went
+through is gone, and nothing else changes (apart from directories created on the way). -/
 theorem relink_replaces_old_link (l : Linker) (fs : FS) (cpath : Path) (t0 : Target)
     (hk : l.key = none) (hs : l.opts.sri = none) (hz : l.opts.size = none)
     (hcp : contentPath l.cache (Sri.compute cfg.H l.algo l.data) = some cpath)
     (hd : ∀ q, q ≠ [] → q <+: FS.parent cpath → NoneOrDir fs q)
     (ht : ∀ q, q ≠ [] → q <+: l.cache ++ [dTmp] → NoneOrDir fs q)
-    (hold : fs.get cpath = some (.link t0)) :
+    (hold : fs.get cpath = some (.link t0)) (hns : NotSameFile fs cpath l.target) :
     (run env (lcommit cfg l) fs).1 = .ok (Sri.compute cfg.H l.algo l.data) ∧
     (run env (lcommit cfg l) fs).2.1.get cpath = some (.link l.target) ∧
     (run env (lcommit cfg l) fs).2.1.get ((l.cache ++ [dTmp]) ++ [tmpName fs.next]) = none ∧
     (∀ q, q ≠ cpath → q ≠ (l.cache ++ [dTmp]) ++ [tmpName fs.next] →
       Grow2 fs (run env (lcommit cfg l) fs).2.1 q (FS.parent cpath) (l.cache ++ [dTmp])) :=
-  let h := LinkRefine.relink_replaces_old_link cfg env l fs cpath t0 hk hs hz hcp hd ht hold
+  let h := LinkRefine.relink_replaces_old_link cfg env l fs cpath t0 hk hs hz hcp hd ht hold hns
   ⟨h.1, h.2.1, h.2.2.1, h.2.2.2.1⟩
+
+open LinkRefine Refine CacheRefine in
+/-- **An earlier link that already leads to the target's file is kept** (`hsm : SameFile …`;
+checkable form `LinkRefine.sameFile_of_eq`): the commit answers ok, the link at the address is
+untouched, no temp name is used (`cache/tmp` need not even be writable), nothing else changes
+(apart from directories created on the way to the address). -/
+theorem relink_same_file_kept (l : Linker) (fs : FS) (cpath : Path) (t0 : Target)
+    (hk : l.key = none) (hs : l.opts.sri = none) (hz : l.opts.size = none)
+    (hcp : contentPath l.cache (Sri.compute cfg.H l.algo l.data) = some cpath)
+    (hd : ∀ q, q ≠ [] → q <+: FS.parent cpath → NoneOrDir fs q)
+    (hold : fs.get cpath = some (.link t0)) (hsm : SameFile fs cpath l.target) :
+    (run env (lcommit cfg l) fs).1 = .ok (Sri.compute cfg.H l.algo l.data) ∧
+    (run env (lcommit cfg l) fs).2.1.get cpath = some (.link t0) ∧
+    (∀ q, Grow fs (run env (lcommit cfg l) fs).2.1 q (FS.parent cpath)) ∧
+    (run env (lcommit cfg l) fs).2.1.next = fs.next :=
+  LinkRefine.relink_same_file_kept cfg env l fs cpath t0 hk hs hz hcp hd hold hsm
 
 open LinkRefine Refine CacheRefine in
 /-- A free address gets the link. -/
@@ -131,8 +148,9 @@ theorem link_keeps_regular_content (l : Linker) (fs : FS) (cpath : Path) (b : By
   ⟨h.1, h.2.1, h.2.2.1⟩
 
 open LinkRefine Refine CacheRefine in
-/-- **After the relink the returned address reads the target's bytes** through the library's
-verified read — whatever the earlier link pointed at. -/
+/-- **After the commit onto an earlier link the returned address reads the target's bytes** through
+the library's verified read — whatever the earlier link pointed at (it is replaced, or it already
+led to the target's file and is kept). -/
 theorem relinked_address_readHash (l : Linker) (fs : FS) (cpath : Path) (t0 : Target)
     (hk : l.key = none) (hs : l.opts.sri = none) (hz : l.opts.size = none)
     (hcp : contentPath l.cache (Sri.compute cfg.H l.algo l.data) = some cpath)
@@ -146,8 +164,9 @@ theorem relinked_address_readHash (l : Linker) (fs : FS) (cpath : Path) (t0 : Ta
   LinkRefine.relinked_address_readHash cfg env l fs cpath t0 hk hs hz hcp hd ht hold tp htgt htp hout hfile
 
 open LinkRefine Refine CacheRefine in
-/-- **Keyed: after the relink the key reads the target's bytes** (lookup, then the verified read by
-the recorded address), on a healthy index. -/
+/-- **Keyed: after the commit onto an earlier link the key reads the target's bytes** (lookup, then
+the verified read by the recorded address), on a healthy index — whatever the earlier link pointed
+at (replaced, or kept because it already led to the target's file). -/
 theorem relinked_key_reads_target (l : Linker) (k : Bytes) (fs : FS) (cpath : Path) (t0 : Target)
     (hk : l.key = some k) (hs : l.opts.sri = none) (hz : l.opts.size = none)
     (hcp : contentPath l.cache (Sri.compute cfg.H l.algo l.data) = some cpath)
